@@ -115,6 +115,29 @@ where
     }
 }
 
+/// Methods with a default body: the client must still forward them (the served target may override them).
+#[remoc::rtc::remote]
+pub trait WithDefault: Sync {
+    async fn plain(&self) -> Result<u32, CallError>;
+    async fn defaulted(&self) -> Result<u32, CallError> {
+        Ok(7)
+    }
+    async fn defaulted_mut(&mut self, x: u32) -> Result<u32, CallError> {
+        Ok(x)
+    }
+}
+
+pub struct WithDefaultObj(u32);
+
+impl WithDefault for WithDefaultObj {
+    async fn plain(&self) -> Result<u32, CallError> {
+        Ok(self.0)
+    }
+    async fn defaulted(&self) -> Result<u32, CallError> {
+        Ok(self.0 + 1)
+    }
+}
+
 /// Instantiate every server flavour so that their `serve` loops are type-checked and built here.
 pub async fn instantiate() {
     use remoc::rtc::{Server, ServerRef, ServerRefMut, ServerShared, ServerSharedMut};
@@ -141,6 +164,13 @@ pub async fn instantiate() {
     let w = Arc::new(remoc::rtc::LocalRwLock::new(RefMutObj(0)));
     let (s, _c) = RefMutOnlyServerSharedMut::<_, remoc::codec::Default>::new(w, 1);
     let _ = s.serve(false).await;
+
+    let mut d = WithDefaultObj(0);
+    let (s, mut c) = WithDefaultServerRefMut::<_, remoc::codec::Default>::new(&mut d, 1);
+    let _ = s.serve().await;
+    let _ = c.plain().await;
+    let _ = c.defaulted().await;
+    let _ = c.defaulted_mut(1).await;
 
     let g = Arc::new(remoc::rtc::LocalRwLock::new(GenericObj(0u8)));
     let (s, mut c) = GenericServerSharedMut::<u8, _, remoc::codec::Default>::new(g, 1);
